@@ -82,6 +82,13 @@ func c09Configs() map[string]map[string]string {
 	m["globals-use-task-special-vars/sched-dump"] = map[string]string{
 		"Taskfile.yml": "version: '3'\nvars:\n  WHO: 'who-{{.TASK}}'\nenv:\n  EWHO: 'env-{{.TASK}}'\ntasks:\n  a:\n    cmds:\n      - echo a {{.WHO}}\n  b:\n    cmds:\n      - echo b {{.WHO}}\n  c:\n    cmds:\n      - echo c {{.WHO}}\n",
 	}
+	// dotenv files whose values refer to each other (values are templated in the order the
+	// variables were stored): two files, the first one wins for a name both define
+	m["dotenv-cross-references"] = map[string]string{
+		"Taskfile.yml": "version: '3'\ndotenv: ['.env', '.env2']\ntasks:\n  show:\n    cmds:\n      - echo show A={{.A}} B={{.B}} C={{.C}} D={{.D}}\n",
+		".env":         "A={{.B}}-a\nB=b\nC={{.A}}-c\n",
+		".env2":        "B=second\nD={{.C}}-d\n",
+	}
 	m["nested-siblings"] = map[string]string{
 		"Taskfile.yml": tf("", "  mid: ./mid.yml\n", "show"),
 		"mid.yml":      tf("  G: mid\n", "  x: ./x.yml\n  y: ./y.yml\n", "t"),
